@@ -79,7 +79,7 @@ RECURSIVE FirstK(_, _)
 FirstK(S, k) == IF k = 0 \/ S = {} THEN {} ELSE LET m == Min(S) IN {m} \cup FirstK(S \ {m}, k - 1)
 Lagrange0(pts, x, q) ==            \* prod_{y # x} (y+1) / ((y+1) - (x+1))  mod q
   LET RECURSIVE F(_) F(S) == IF S = {} THEN 1 ELSE LET y == Min(S) IN
-                               (((y + 1) * InvM((y - x) % q, q)) % q * F(S \ {y})) % q
+                               ((((y + 1) * InvM((y - x) % q, q)) % q) * F(S \ {y})) % q
   IN F(pts \ {x})
 Interpolate(q, pts, val) ==        \* val: function on pts
   LET RECURSIVE F(_) F(S) == IF S = {} THEN 0 ELSE LET x == Min(S) IN
